@@ -198,7 +198,7 @@ def cases(spec, ctx):
         else:
             blocks = ()
             while len(blocks) < 9:
-                blocks = G.rand_layout(srng, min(gl, 1500), srng.choice([srng.randint(9, 30), srng.randint(17, 40), srng.randint(33, 70), srng.randint(64, 150)]),
+                blocks = G.rand_layout(srng, min(gl, 3000), srng.choice([srng.randint(9, 30), srng.randint(17, 40), srng.randint(33, 70), srng.randint(64, 150), srng.randint(129, 300)]),
                                        overlap=srng.random() < 0.3)
         r = srng.random()
         yield {"kind": "random", "blocks": blocks, "strand": "." if r < 0.05 else ("+" if r < 0.5 else "-"), "alpha": alpha,
